@@ -391,3 +391,5 @@ add("C22", "communicator passed in the mirror_samples slot", "nifty/cl/minimizat
 VARIANTS = V
 add("C05", "domain refresh stops at an already refreshed ancestor", "nifty/cl/operator_tree_optimiser.py", "            index = nodes[index][1]\n            cond = type(index) is int\n", "            if index in _seen:\n                break\n            _seen.add(index)\n            index = nodes[index][1]\n            cond = type(index) is int\n", "R05.5")
 add("C12", "eigenvalue cut-off at the dtype's machine epsilon", "nifty/re/tree_math/util.py", "def _check(v, cut=1e-16):\n    return v > cut", "def _check(v, cut=None):\n    cut = jnp.finfo(v.dtype).eps if cut is None else cut\n    return v > cut", "R12.14")
+add("C05", "shared chain object cut once per parent", "nifty/cl/operator_tree_optimiser.py", "                    if id(leaf_op) in truncated:\n", "                    if False:\n", "R05.6")
+add("C05", "cut objects not remembered", "nifty/cl/operator_tree_optimiser.py", "                        truncated.add(id(leaf_op))\n", "", "R05.6")
